@@ -8,10 +8,11 @@ from lib import gen_net as G
 from gen import c06_nets as N
 from gen import c06_acord as A
 from gen import c05_linearization as tr_lin
+from gen import c06_testlin as tr_tl
 
 ID = "C06"
-PROPS_FILES = ["Gama/Props/C06.lean"]
-LEAN_TARGETS = ["Gama.Props.C06"]
+PROPS_FILES = ["Gama/Props/C06.lean", "Gama/Props/C06Assembled.lean"]
+LEAN_TARGETS = ["Gama.Props.C06", "Gama.Props.C06Assembled"]
 DRIVERS = ["drv_cogo"]
 RULE = ("(a3) the whole of Acord2::execute (the real do-while, all strategy objects of the constructor) on in-memory networks "
         "of 2..4 given points and 2..6 construction stages, each tying a new point or a missing height to points that are "
@@ -53,7 +54,12 @@ LEVEL_TEXT = ("partial: Lean 4 theorems over R about executable models of the ap
               "absolute term for all 13 observation types of the linearisation GENERATED from local_linearization.cpp, "
               "hence zero right-hand side for the WHOLE pass of project_equations (C05's model), hence every solution meeting C01's "
               "specification IsLSSolution has x = 0, v = 0, [pvv] = 0 when the regularisation resolves the defect, the stopping "
-              "test passes and refine_approx_coordinates changes nothing), and of single steps of the Acord2 strategies "
+              "test passes and refine_approx_coordinates changes nothing; round 6: the stopping test of that statement is the loop "
+              "of TestLinearization() over the observations of the same pass with every TestLinearizationVisitor::visit "
+              "REGENERATED from test_linearization_visitor.cpp/.h on the records of the generated linearisation, reading the "
+              "corrections through the index fields the pass left - no hypothesis about the misclosures is left: they are 0 for "
+              "all 13 classes, a direction read any whole number of circles off its bearing included, and the wrap loops end), "
+              "and of single steps of the Acord2 strategies "
               "AcordAzimuth (prepare + execute, both id orders), AcordHdiff, AcordVector (chaining loops, both directions, "
               "copy-back), AcordZderived (station from targets and targets from station; horizontal, slope and coordinate "
               "distances; instrument/target heights) with Acord2::get_medians_z: exact observations and a point list whose "
@@ -92,10 +98,8 @@ LEVEL_NOTE = ("Theorems are about exact real arithmetic; libm and rounding are n
               "(adjusted = true, zero residuals, nothing removed, for every algorithm) is explored, not proved; "
               "tolerances used by the oracle: 1e-6 m when exact approximate coordinates are supplied, 1e-5 m otherwise "
               "(the program stops iterating at 0.0005 mm positional misclosure), 1e-4 m (xy) / 3e-4 m (z) when from_dh/to_dh "
-              "are present (the program refines zenith-angle reductions only to 0.1 cc), and for a slope distance / zenith angle with "
-              "from_dh/to_dh a residual up to 1.5*dh*d/s, d = the last coordinate correction the stopping test lets pass "
-              "(refine_obsdh_reductions computes the reduction from the approximate coordinates of the iteration; counted as "
-              "e2e_stale_dh_reduction_tolerated); tol-abs is raised with the "
+              "are present (the program refines the from_dh/to_dh reductions to 0.001 mm / 0.1 cc, at the approximate and, since "
+              "a2adf726, at the adjusted coordinates: residuals of such observations get +1e-6 m / +1e-5 gon); tol-abs is raised with the "
               "perturbation so that the documented gross-error gate is not what is being tested.")
 TECHNIQUE = ("Lean 4 proof (closed-form geometry over R, list induction) + differential correspondence at Float "
              "+ end-to-end property search on gama-local with shrinking")
@@ -104,7 +108,9 @@ TRUSTED = ["harness/c06_cogo.cpp re-declares access (#define private public) for
            "(a probe at the head, a forwarding wrapper around every strategy) into Acord2::algorithms_",
            "tools/gen/c06_acord.py (true coordinates -> exact observations of the single-step networks)",
            "tools/gen/c06_nets.py (true coordinates -> exact observations) and the regex reader of the result XML",
-           "expat (the `net` stream parses generated .gkf files through GKFparser)"]
+           "expat (the `net` stream parses generated .gkf files through GKFparser)",
+           "tools/gen/c06_testlin.py (test_linearization_visitor.cpp/.h -> Gama/Gen/TestLinVisitor.lean; tokenizer and "
+           "expression parser are C05's translator's)"]
 MODELLED = ["libm sin/cos/atan2/acos/sqrt (Float primitives of the Lean runtime vs glibc)",
             "std::sort (insertion sort in the model)", "std::map / std::multimap iteration order inside Acord2",
             "AcordPolar::execute, AcordTraverse, AcordWeakChecks, ApproximateCoordinates::solve_insertion (not modelled; "
@@ -123,7 +129,12 @@ ASSUMPTIONS = ["bearing and direction values lie in [0, 2pi) (one pass of the un
                "(the buffer is indeterminate in the C++ until then)",
                "AcordHdiff / AcordVector chaining loops: fuel 2*(points+2) passes (every successful pass defines a point)",
                "Acord2::median is only called on non-empty vectors",
-               "C06_acord2_modelled_monotone_partial / _execute_partial: AcordIntersection is monotone on the simulation relation (aiMono)",
+               "C06_acord2_modelled_monotone_partial / _execute_partial: AcordIntersection is monotone on the simulation relation (aiMono); "
+               "its point-level core (ApproxPoint::calculation monotone in the arranged list, C06_acord_intersection_point_monotone) is "
+               "proved, the monotonicity of ArrangeObservations and the lock-step of the walks are not",
+               "Model/TestLinearization.lean: the loop, the maximum and the threshold of TestLinearization() are hand-written (the "
+               "translator checks the shape of the C++ loop text); the special case for a Coordinates cluster has no counterpart "
+               "(the visits of X, Y, Z give 0 as well)",
                "C06I.ExactCl: two directions (azimuths) observed at one point go to targets >= 1e-6 apart and not in one direction",
                "intersection stream: point ids of an observation are distinct; the static small-angle limit starts at 0.15"]
 
@@ -145,6 +156,9 @@ TWO_PI = 2 * math.pi
 def translate(ctx):
     # Props/C06.lean states the fixed point on C05's generated linearisation: make sure it is the current tree's
     tr_lin.translate(ctx.repo, ctx.lean)
+    # the stopping test: TestLinearizationVisitor::visit(<Class>*) regenerated on the records of that linearisation
+    # (Gama/Gen/TestLinVisitor.lean; executed by drv_cogo in the net stream, proved about in Lemmas/C06PolLin.lean)
+    tr_tl.translate(ctx.repo, ctx.lean)
 
 
 _TOOLS = {}          # harness and driver of the current run (the end-to-end signature consults the acord2 op)
@@ -372,7 +386,11 @@ def net_ops(lines):
             op = {"distance": "poldist", "direction": "poldir", "angle": "polangle", "sdistance": "polsdist",
                   "zangle": "polzangle"}.get(kind)
             if op:
+                # the hand-written reading of the visitor (a change of the C++ shows up as a disagreement with a concrete
+                # op line) and the visitor regenerated from the source (what the fixed-point theorems are about)
                 ops.append(op + " " + " ".join(body))
+                exp.append("ok " + pol)
+                ops.append("g" + op + " " + " ".join(body))
                 exp.append("ok " + pol)
         elif t[0] == "testlin":
             ops.append(f"testlin {len(pols)} " + " ".join(pols))
@@ -411,11 +429,12 @@ def tolerances(variant, heights):
 
 def check(net, rc, xml, txt, log, variant, heights):
     tol = tolerances(variant, heights)
-    # with from_dh/to_dh the program keeps a zenith-angle reduction until it is stale by more than
-    # angular_tol = 0.1 cc = 1e-5 gon (test_linearization_visitor.cpp); with target heights of several metres the
-    # staleness reaches that limit on both ends of the iteration (observed: up to 2.0e-5 gon): 5e-5 gon = 0.5 cc
-    bad = N.check_result(net, rc, xml, txt, log, tol_xyz=tol["tol_xyz"], tol_ang=max(tol["tol_ang"], 5e-5 if heights else 0),
-                         tol_lin=max(tol["tol_lin"], 1e-4 if heights else 0))
+    # with from_dh/to_dh the reduction of a slope distance / zenith angle is the one of the approximate coordinates of the
+    # last pass; refine_adjustment goes on until it agrees with the reduction at the adjusted coordinates to
+    # linear_tol = 0.001 mm / angular_tol = 0.1 cc = 1e-5 gon (test_linearization_visitor.cpp, fix a2adf726): a residual
+    # may carry that much and no more
+    bad = N.check_result(net, rc, xml, txt, log, tol_xyz=tol["tol_xyz"], tol_ang=tol["tol_ang"] + (1e-5 if heights else 0),
+                         tol_lin=tol["tol_lin"] + (1e-6 if heights else 0))
     if bad and variant != "supplied":
         # weakly determined coordinates (reported std.dev > 20 mm for sigma_obs 5 mm / 10 cc): the program stops at
         # 0.0005 mm positional misclosure = 1e-4 sigma_obs, so allow 5e-3 of the coordinate's own std.dev
@@ -436,47 +455,9 @@ def check(net, rc, xml, txt, log, variant, heights):
             m = re.match(r"(\S+)\.([xyz]) off by (\S+)", b)
             if m and abs(float(m.group(3))) <= (tol["tol_z"] if m.group(2) == "z" else 1e-4):
                 continue
-            if stale_dh_reduction(net, b, variant):
-                STALE_DH[0] += 1
-                continue
             out.append(b)
         bad = out
     return bad
-
-
-STALE_DH = [0]
-
-
-def stale_dh_reduction(net, b, variant):
-    """refine_obsdh_reductions computes the from_dh / to_dh reduction of a slope distance / zenith angle from the
-    APPROXIMATE coordinates of the current iteration (IS->PD); when neither it nor the stopping test asks for another
-    iteration the reduction stays stale by the last coordinate correction d: by dh*d/s for a slope distance of horizontal
-    length s (dh*d/s^2 rad for a zenith angle).  d is at most the perturbation of the variant and, whatever the variant,
-    at most the correction the stopping test lets pass, sqrt(2 * 0.0005 mm * s).  A residual of such an observation
-    within 1.5 x that bound is the program's documented approximation, not a loss of the network (reported to the lead
-    as an observation: reproducer corpus/C06/pending/stale-dh-reduction.gkf)."""
-    m = re.match(r"residual (s-distance|slope-distance|z-angle|zenith-angle) (\S+)->(\S+) (\S+) (m|gon)", b)
-    if not m:
-        return False
-    f, t, r, unit = m.group(2), m.group(3), abs(float(m.group(4))), m.group(5)
-    pts = net["points"]
-    if f not in pts or t not in pts:
-        return False
-    sh = math.hypot(pts[f]["x"] - pts[t]["x"], pts[f]["y"] - pts[t]["y"])
-    dh = 0.0
-    for c in net["obs"]:
-        if c.get("kind") == "obs" and c.get("from") == f:
-            for it in c["items"]:
-                if it.get("to") == t and it["t"] in ("s-distance", "z-angle"):
-                    dh = max(dh, abs(it.get("from_dh", 0.0)), abs(it.get("to_dh", 0.0)))
-    if dh == 0.0 or sh < 1.0:
-        return False
-    mm = re.match(r"perturbed([0-9.e-]+)$", variant)
-    d = math.sqrt(2 * 5e-7 * sh)
-    if mm:
-        d = max(min(d, float(mm.group(1)) * math.sqrt(3)), min(d, 1e-3))
-    bound = 1.5 * dh * d / sh
-    return r <= (bound if unit == "m" else bound / sh * 200.0 / math.pi)
 
 
 def coord_stdev(txt):
@@ -1269,9 +1250,7 @@ def correspond(ctx, corr):
                            "heights": m.get("heights", False), "truth_net": m["truth_net"], "step": m.get("step", ""),
                            "signature": signature(f.read_text(), bad, txt, m.get("variant", "supplied"), m["truth_net"])},
                           site=m.get("site", "gama-local"), detail=txt[:1500])
-        STALE_DH[0] = 0
         e2e(ctx, corr, gd, ctx.size(45, 400), wd)
-        corr.count("e2e_stale_dh_reduction_tolerated", STALE_DH[0])
     finally:
         shutil.rmtree(wd, ignore_errors=True)
     if corr.stats.get("net_testlin_decided_by_negative_misclosure", 0) < 5:
